@@ -54,7 +54,7 @@ mod verif_kani_wal {
     }
 
     // @harness: wal_header_roundtrip_len0
-    // @bound: payload length 0 (header only); timestamp over all of u64; loop-free
+    // @bound: payload length 0 (header only): encodes to 16 bytes and is refused by decode; timestamp over all of u64; loop-free
     // @tier: quick
     // @complete: true
     #[kani::proof]
@@ -74,46 +74,28 @@ mod verif_kani_wal {
             && bytes[8] == ts[4] && bytes[9] == ts[5] && bytes[10] == ts[6] && bytes[11] == ts[7]);
         let ck = to_le32(checksum);
         assert!(bytes[12] == ck[0] && bytes[13] == ck[1] && bytes[14] == ck[2] && bytes[15] == ck[3]);
-        // and back, with the real from_le_bytes
-        match WalEntry::decode(&bytes) {
-            Some((d, n)) => {
-                assert!(n == 16);
-                assert!(d.timestamp == timestamp);
-                assert!(d.checksum == checksum);
-                assert!(d.data.is_empty());
-            }
-            None => assert!(false),
-        }
+        // and back: an entry with NO payload is not an entry (a zero-filled region must not decode as one - the CRC-32
+        // of no bytes is 0); the real decoder refuses it for every stamp
+        assert!(WalEntry::decode(&bytes).is_none());
         kani::cover!(true);
     }
 
     // @harness: wal_decode_any_header
-    // @bound: every 16-byte input (2^128 headers); loop-free
+    // @bound: every 16-byte input (2^128 headers) is refused; loop-free
     // @tier: quick
     // @complete: true
     #[kani::proof]
     #[kani::stub(crc32fast::hash, crc_stub)]
     fn wal_decode_any_header() {
         let h: [u8; 16] = kani::any();
-        match WalEntry::decode(&h) {
-            Some((d, n)) => {
-                // only an entry with an empty payload fits into 16 bytes
-                assert!(n == 16 && d.data.is_empty());
-                assert!(le32([h[0], h[1], h[2], h[3]]) == 0);
-                assert!(d.timestamp == le64([h[4], h[5], h[6], h[7], h[8], h[9], h[10], h[11]]));
-                assert!(d.checksum == le32([h[12], h[13], h[14], h[15]]));
-                assert!(d.checksum == crc_stub(&[]));
-            }
-            None => {
-                // rejected exactly when it announces a payload or the stored checksum is wrong
-                assert!(le32([h[0], h[1], h[2], h[3]]) != 0 || le32([h[12], h[13], h[14], h[15]]) != crc_stub(&[]));
-            }
-        }
+        // only an entry with an empty payload would fit into 16 bytes, and an entry is never empty: every 16-byte
+        // input is refused (in particular sixteen zero bytes)
+        assert!(WalEntry::decode(&h).is_none());
         kani::cover!(true);
     }
 
     // @harness: wal_roundtrip_payload_le8_tail3
-    // @bound: payload <= 8 bytes (all contents, all timestamps), followed by a 3-byte tail of arbitrary content; unwind 10
+    // @bound: payload 1..=8 bytes (all contents, all timestamps), followed by a 3-byte tail of arbitrary content; unwind 10
     // @tier: quick
     // @complete: false
     #[kani::proof]
@@ -122,7 +104,7 @@ mod verif_kani_wal {
     fn wal_roundtrip_payload_le8_tail3() {
         let payload: [u8; 8] = kani::any();
         let len: usize = kani::any();
-        kani::assume(len <= 8);
+        kani::assume(1 <= len && len <= 8);
         let tail: [u8; 3] = kani::any();
         let timestamp: u64 = kani::any();
         let data = payload[..len].to_vec();
@@ -149,7 +131,7 @@ mod verif_kani_wal {
     }
 
     // @harness: wal_roundtrip_payload_le8
-    // @bound: payload <= 8 bytes, tail <= 4 bytes (all contents, all timestamps); unwind 10
+    // @bound: payload 1..=8 bytes, tail <= 4 bytes (all contents, all timestamps); unwind 10
     // @tier: thorough
     // @complete: false
     #[kani::proof]
@@ -158,7 +140,7 @@ mod verif_kani_wal {
     fn wal_roundtrip_payload_le8() {
         let payload: [u8; 8] = kani::any();
         let len: usize = kani::any();
-        kani::assume(len <= 8);
+        kani::assume(1 <= len && len <= 8);
         let tail: [u8; 4] = kani::any();
         let tail_len: usize = kani::any();
         kani::assume(tail_len <= 4);
